@@ -136,10 +136,14 @@ func (r *Record) Start() int {
 
 // Bin returns the BAM index bin of the record.
 func (r *Record) Bin() int {
-	if r.Flags&(Unmapped|MateUnmapped) == Unmapped|MateUnmapped {
-		return 4680 // reg2bin(-1, 0)
+	end := r.End()
+	if end <= r.Pos {
+		// An alignment that consumes no reference bases is
+		// binned as if it were one base long. This also gives
+		// 4680, reg2bin(-1, 0), for an unplaced read.
+		end = r.Pos + 1
 	}
-	return int(internal.BinFor(r.Pos, r.End()))
+	return int(internal.BinFor(r.Pos, end))
 }
 
 // Len returns the length of the alignment.
